@@ -1,4 +1,455 @@
+// C14: the const API is safe under concurrent use (DESIGN 4.1).
+// One simulated run = one fresh process: N real threads execute a seeded plan of
+// non-mutating operations on shared objects; the uninstrumented scheduler decides
+// who runs at every scheduling point (operation boundaries, the four guard points
+// of each lazily initialised constant, seeded function-entry pre-emptions).
 #include "checks.h"
+#include "../core/vsched.h"
+#include <pthread.h>
+#include <unistd.h>
+#include <sys/wait.h>
+#include <cstring>
+#include <sstream>
+#include <algorithm>
+
 namespace vsim {
-void run_c14(const RunOpts&, Result& res) { res.status = "harness_error"; res.detail = "not built yet"; }
+namespace {
+
+enum Fault : uint8_t { F_NONE = 0, F_REJECT = 1, F_STALL = 4 };
+const uint8_t T_MAIN = 255;   // step executed by the main thread before the workers start (prewarm)
+
+struct Lite { int status; int flags; uint64_t digest; };
+
+struct Shared {
+  const Plan* plan;
+  Ctx* ctx;
+  std::vector<Lite>* results;
+};
+Shared g_sh;
+
+struct ThreadArg { int tid; };
+
+void exec_into(const Plan& plan, Ctx& ctx, size_t i, Lite& l) {
+  const Step& s = plan.steps[i];
+  const GroupCtx& gc = ctx.g[s.group];
+  Out out;
+  gc.vt->exec(gc.st, &s.op, &out);
+  l.status = out.status; l.flags = out.flags; l.digest = out.digest();
 }
+
+void* worker(void* a) {
+  const int tid = static_cast<ThreadArg*>(a)->tid;
+  vs_thread_begin(tid);
+  const Plan& plan = *g_sh.plan;
+  for (size_t i = 0; i < plan.steps.size(); ++i) {
+    const Step& s = plan.steps[i];
+    if (s.kind != ST_OP || s.op.thread != tid) continue;
+    vs_yield(VS_R_OPB, (unsigned)i);
+    if (s.op.fault == F_STALL) vs_stall(s.op.fparam, (unsigned)i);
+    exec_into(plan, *g_sh.ctx, i, (*g_sh.results)[i]);
+    vs_statics_check_note((long)i);
+  }
+  vs_thread_end();
+  return nullptr;
+}
+
+// hash of every shared operand (owning objects and view buffers)
+uint64_t operand_hash(Ctx& ctx) {
+  Fnv f;
+  for (auto& gc : ctx.g) {
+    const GroupVT* vt = gc.vt;
+    for (int i = 0; i < vt->NE; ++i)
+      for (int w = 0; w < 2; ++w) f.bytes(vt->elem_addr(gc.st, i, w), vt->scalar_size * vt->rep);
+    for (int i = 0; i < vt->NT; ++i)
+      for (int w = 0; w < 2; ++w) f.bytes(vt->tan_addr(gc.st, i, w), vt->scalar_size * vt->dof);
+    double p[32];
+    for (int i = 0; i < vt->NP; ++i) { vt->get_pt(gc.st, i, p); f.bytes(p, sizeof(double) * vt->dim); }
+  }
+  return f.h;
+}
+
+void apply_sets(const Plan& plan, Ctx& ctx) {
+  for (const Step& s : plan.steps) {
+    const GroupCtx& gc = ctx.g[s.group];
+    switch (s.kind) {
+      case ST_SETE: gc.vt->set_elem(gc.st, s.slot, 2, s.vals.data()); break;
+      case ST_SETT: gc.vt->set_tan(gc.st, s.slot, 2, s.vals.data()); break;
+      case ST_SETP: gc.vt->set_pt(gc.st, s.slot, s.vals.data()); break;
+      case ST_SETVEC: { int sl[16]; int n = 0; for (double v : s.vals) if (n < 16) sl[n++] = (int)v; gc.vt->set_vec(gc.st, sl, n, s.slot == 1); } break;
+      default: break;
+    }
+  }
+}
+
+// ---- plan generation ----------------------------------------------------------------------------
+struct Gen {
+  Rng rng;
+  Plan plan;
+  std::vector<const GroupVT*> vts;
+  explicit Gen(uint64_t seed) : rng(seed) {}
+
+  std::vector<int> const_ops(const GroupVT* vt, bool statics_only) {
+    std::vector<int> v;
+    for (int op = 0; op < OP__END; ++op) {
+      const OpInfo& inf = op_info(op);
+      if (!inf.name || !inf.is_const || inf.draws_rand) continue;
+      if (inf.cls != C_ELEM && inf.cls != C_TAN && inf.cls != C_STATIC && inf.cls != C_ALG) continue;
+      if (statics_only && !inf.touches_static) continue;
+      if (op == OP_ROTATION && !(vt->caps & CAP_ROTATION)) continue;
+      if (op == OP_TRANSFORM && (vt->caps & CAP_BUNDLE)) continue;
+      if ((op == OP_SMALLADJ || op == OP_BRACKET || op == OP_BRACKET_S) && !(vt->caps & CAP_SMALLADJ)) continue;
+      if (op == OP_AVG && vt->dof == 1) continue;
+      if (op == OP_DECASTELJAU && vt->is_float) continue;
+      v.push_back(op);
+    }
+    return v;
+  }
+
+  Step random_op(int g, int thread, const std::vector<int>& ops) {
+    const GroupVT* vt = vts[g];
+    int op = ops[rng.below((uint32_t)ops.size())];
+    const OpInfo& inf = op_info(op);
+    Step s = make_op(g, op, 0, 0, -1);
+    s.op.thread = (uint8_t)thread;
+    const int NEu = 6, NTu = 4;
+    s.op.a = (uint8_t)rng.below(inf.cls == C_TAN ? NTu : NEu);
+    if (inf.cls == C_STATIC && (op == OP_VEE || op == OP_BRACKET_S)) s.op.a = (uint8_t)rng.below(NTu);
+    switch (inf.arg2) {
+      case A_ELEM: s.op.b = (uint8_t)rng.below(NEu); break;
+      case A_TAN: s.op.b = (uint8_t)rng.below(NTu); break;
+      case A_PT: s.op.b = (uint8_t)rng.below(vt->NP); break;
+      default: break;
+    }
+    s.op.c = (uint8_t)rng.below(NTu);
+    if (op == OP_GENERATOR || op == OP_T_GENERATOR_M) s.op.c = (uint8_t)rng.below(vt->dof);
+    if (op == OP_SMOOTH_PHI) { s.op.c = (uint8_t)(1 + rng.below(4)); s.op.s = rng.unit(); }
+    if (op == OP_INTERP_SLERP || op == OP_INTERP_CUBIC || op == OP_INTERP_SMOOTH) s.op.s = round_scalar(vt, rng.unit());
+    if (op == OP_ISAPPROX || op == OP_T_ISAPPROX) s.op.s = vt->eps * (rng.chance(0.5) ? 1 : 1e6);
+    if (op == OP_T_SCALE) s.op.s = round_scalar(vt, rng.uniform(-2, 2));
+    s.op.ka = (uint8_t)rng.below(3);
+    s.op.kb = (uint8_t)rng.below(3);
+    if (op == OP_BRACKET || op == OP_JT_MUL) { s.op.ka = K_OWN; s.op.kb = K_OWN; }
+    if (inf.nout) s.op.mask = (uint8_t)rng.below(1u << inf.nout);
+    if (inf.nout && rng.chance(0.2)) s.op.variant |= (uint8_t)(rng.below(4));   // bind outputs into blocks
+    if (rng.chance(0.15) && (op == OP_INTERP_SLERP || op == OP_INTERP_CUBIC || op == OP_INTERP_SMOOTH || op == OP_T_SCALE)) s.op.variant |= V_ALT;
+    return s;
+  }
+
+  Step rejected(int g, int thread) {
+    const GroupVT* vt = vts[g];
+    Step s = make_op(g, OP_GENERATOR, 0, 0, -1);
+    s.op.thread = (uint8_t)thread; s.op.fault = F_REJECT;
+    switch (rng.below(4)) {
+      case 0: s.op.op = OP_GENERATOR; s.op.c = (uint8_t)(signed char)(rng.chance(0.5) ? -1 : vt->dof); s.op.fparam = 1; break;
+      case 1: s.op.op = OP_T_GENERATOR_M; s.op.c = (uint8_t)vt->dof; s.op.fparam = 1; break;
+      case 2: s.op.op = OP_INTERP_SLERP; s.op.a = 0; s.op.b = 1; s.op.s = 1.5; s.op.fparam = 2; break;
+      default: s.op.op = OP_SMOOTH_PHI; s.op.c = 0; s.op.s = 0.5; s.op.fparam = 3; break;
+    }
+    return s;
+  }
+
+  void generate(uint64_t seed, bool thorough) {
+    plan.check = "C14"; plan.seed = seed;
+    const int ng_all = n_groups();
+    int ngr = 1 + (int)rng.below(3);
+    for (int i = 0; i < ngr; ++i) {
+      const GroupVT* vt = group((int)rng.below(ng_all));
+      plan.groups.push_back(vt->name); vts.push_back(vt);
+    }
+    const int nthreads = 2 + (int)rng.below(thorough ? 7 : 5);
+    plan.set("threads", nthreads);
+    plan.set("policy", (long)rng.below(3));
+    plan.set("pct_depth", (long)(1 + rng.below(3)));
+    plan.set("guard_points", rng.chance(0.9) ? 1 : 0);
+    plan.set("preempt_depth", (long)rng.below(4));
+    // shared operands, built from raw coefficient data only
+    for (int g = 0; g < ngr; ++g) {
+      const GroupVT* vt = vts[g];
+      for (int i = 0; i < vt->NE; ++i) {
+        ElemSpec sp; sp.neg_hemisphere = rng.chance(0.3); sp.lin_lo = 1e-2; sp.lin_hi = 10;
+        double c[32]; gen_elem(vt, rng, sp, c);
+        plan.steps.push_back(make_set(ST_SETE, g, i, c, vt->rep));
+      }
+      for (int i = 0; i < vt->NT; ++i) {
+        TanSpec sp; sp.angle = rng.chance(0.2) ? std::fabs(rng.logmag(1e-10, 1e-6)) : rng.uniform(0.01, 3); sp.lin_lo = 1e-2; sp.lin_hi = 5;
+        double t[32]; gen_tan(vt, rng, sp, t);
+        plan.steps.push_back(make_set(ST_SETT, g, i, t, vt->dof));
+      }
+      for (int i = 0; i < vt->NP; ++i) { double p[32]; gen_pt(vt, rng, 1e-2, 10, p); plan.steps.push_back(make_set(ST_SETP, g, i, p, vt->dim)); }
+      Step v; v.kind = ST_SETVEC; v.group = (uint8_t)g; int n = 2 + rng.below(3); for (int i = 0; i < n; ++i) v.vals.push_back(i);
+      plan.steps.push_back(v);
+    }
+    // hot list: constants that several threads reach within a few decisions of each other
+    std::vector<Step> hot;
+    int nhot = 2 + (int)rng.below(5);
+    for (int i = 0; i < nhot; ++i) {
+      int g = (int)rng.below(ngr);
+      hot.push_back(random_op(g, 0, const_ops(vts[g], true)));
+    }
+    // prewarm: main thread touches a subset of the hot constants before the workers exist
+    if (rng.chance(0.35)) {
+      int k = 1 + (int)rng.below(nhot);
+      for (int i = 0; i < k; ++i) { Step s = hot[rng.below(nhot)]; s.op.thread = T_MAIN; plan.steps.push_back(s); }
+    }
+    // per-thread programs, interleaved in the plan in round-robin order (plan order = reference order)
+    std::vector<std::vector<Step> > prog(nthreads);
+    for (int t = 0; t < nthreads; ++t) {
+      std::vector<Step> hs = hot;
+      for (int i = (int)hs.size() - 1; i > 0; --i) std::swap(hs[i], hs[rng.below(i + 1)]);
+      int take = rng.chance(0.8) ? (int)hs.size() : (int)rng.below((uint32_t)hs.size() + 1);
+      for (int i = 0; i < take; ++i) { hs[i].op.thread = (uint8_t)t; prog[t].push_back(hs[i]); }
+      int extra = (int)rng.below(thorough ? 24 : 12);
+      for (int i = 0; i < extra; ++i) {
+        int g = (int)rng.below(ngr);
+        if (rng.chance(0.06)) prog[t].push_back(rejected(g, t));
+        else prog[t].push_back(random_op(g, t, const_ops(vts[g], rng.chance(0.5))));
+      }
+      if (rng.chance(0.25) && !prog[t].empty()) {   // stall: slow thread
+        Step& s = prog[t][rng.below((uint32_t)prog[t].size())];
+        if (s.op.fault == F_NONE) { s.op.fault = F_STALL; s.op.fparam = (uint16_t)(1 + rng.below(40)); }
+      }
+      if (rng.chance(0.2)) plan.set(("late_" + std::to_string(t)).c_str(), (long)(1 + rng.below(60)));   // late start
+    }
+    size_t mx = 0;
+    for (auto& p : prog) mx = std::max(mx, p.size());
+    for (size_t i = 0; i < mx; ++i)
+      for (int t = 0; t < nthreads; ++t) if (i < prog[t].size()) plan.steps.push_back(prog[t][i]);
+  }
+};
+
+struct RefData {
+  std::vector<Lite> res;
+  uint64_t entries[16];
+  std::vector<uint64_t> static_hash;   // 0 = not initialised
+  uint64_t operand_hash_after;
+};
+
+bool write_all(int fd, const void* p, size_t n) {
+  const char* c = (const char*)p;
+  while (n) { ssize_t k = write(fd, c, n); if (k <= 0) return false; c += k; n -= (size_t)k; }
+  return true;
+}
+bool read_all(int fd, void* p, size_t n) {
+  char* c = (char*)p;
+  while (n) { ssize_t k = read(fd, c, n); if (k <= 0) return false; c += k; n -= (size_t)k; }
+  return true;
+}
+
+}  // namespace
+
+void run_c14(const RunOpts& o, Result& res) {
+  const int nstat = vs_statics_init();
+  Plan plan;
+  if (o.replay) plan = *o.replay;
+  else { Gen g(o.seed); g.generate(o.seed, o.thorough); plan = g.plan; }
+  const int nthreads = (int)plan.cfg_int("threads", 2);
+  if (nthreads < 1 || nthreads > 15) { res.status = "harness_error"; res.detail = "bad thread count"; return; }
+
+  Ctx ctx;
+  std::string err;
+  if (!ctx.init(plan, err)) { res.status = "harness_error"; res.detail = err; return; }
+  apply_sets(plan, ctx);
+  const uint64_t ophash0 = operand_hash(ctx);
+  const size_t n = plan.steps.size();
+
+  // ---- sequential reference model in a forked child (pristine statics, one thread, same binary) ----
+  RefData ref;
+  ref.res.resize(n);
+  ref.static_hash.assign((size_t)nstat, 0);
+  int pfd[2];
+  if (pipe(pfd) != 0) { res.status = "harness_error"; res.detail = "pipe"; return; }
+  fflush(stdout); fflush(stderr);
+  pid_t pid = fork();
+  if (pid == 0) {
+    close(pfd[0]);
+    vs_count_entries(1);
+    std::vector<Lite> r(n);
+    for (size_t i = 0; i < n; ++i) {
+      r[i].status = -1; r[i].flags = 0; r[i].digest = 0;
+      if (plan.steps[i].kind != ST_OP) continue;
+      int th = plan.steps[i].op.thread;
+      vs_calib_thread(th == T_MAIN ? 15 : th);
+      exec_into(plan, ctx, i, r[i]);
+    }
+    vs_calib_thread(-1);
+    uint64_t ent[16];
+    for (int t = 0; t < 16; ++t) ent[t] = vs_entries_of(t);
+    std::vector<uint64_t> sh((size_t)nstat);
+    for (int k = 0; k < nstat; ++k) sh[k] = vs_static_hash_at(k);
+    uint64_t oh = operand_hash(ctx);
+    bool ok = write_all(pfd[1], r.data(), sizeof(Lite) * n) && write_all(pfd[1], ent, sizeof ent) &&
+              write_all(pfd[1], sh.data(), sizeof(uint64_t) * sh.size()) && write_all(pfd[1], &oh, sizeof oh);
+    _exit(ok ? 0 : 3);
+  }
+  close(pfd[1]);
+  bool got = read_all(pfd[0], ref.res.data(), sizeof(Lite) * n) && read_all(pfd[0], ref.entries, sizeof ref.entries) &&
+             read_all(pfd[0], ref.static_hash.data(), sizeof(uint64_t) * ref.static_hash.size()) &&
+             read_all(pfd[0], &ref.operand_hash_after, sizeof(uint64_t));
+  close(pfd[0]);
+  int wst = 0;
+  waitpid(pid, &wst, 0);
+  if (!got) {
+    res.status = "harness_error";
+    res.detail = "sequential reference child failed (exit status " + std::to_string(wst) + ")";
+    return;
+  }
+
+  // ---- pre-emption points -----------------------------------------------------------------------------
+  Rng prng(plan.seed ^ 0x1234567ull);
+  std::vector<std::vector<uint64_t> > pre((size_t)nthreads);
+  if (!plan.preempts.empty()) {
+    for (int t = 0; t < nthreads && t < (int)plan.preempts.size(); ++t) pre[t] = plan.preempts[t];
+  } else if (!o.replay) {
+    const int depth = (int)plan.cfg_int("preempt_depth", 0);
+    for (int t = 0; t < nthreads; ++t) {
+      int d = depth ? (int)prng.below((uint32_t)depth + 1) : 0;
+      for (int i = 0; i < d && ref.entries[t] > 0; ++i) pre[t].push_back(1 + (prng.next() % ref.entries[t]));
+      std::sort(pre[t].begin(), pre[t].end());
+    }
+  }
+
+  // ---- prewarm by the main thread -----------------------------------------------------------------------
+  std::vector<Lite> results(n);
+  for (size_t i = 0; i < n; ++i) { results[i].status = -1; results[i].flags = 0; results[i].digest = 0; }
+  int nprewarm = 0;
+  for (size_t i = 0; i < n; ++i)
+    if (plan.steps[i].kind == ST_OP && plan.steps[i].op.thread == T_MAIN) { exec_into(plan, ctx, i, results[i]); ++nprewarm; }
+
+  // ---- simulated run -----------------------------------------------------------------------------------
+  long nops = 0;
+  for (const Step& s : plan.steps) if (s.kind == ST_OP && s.op.thread != T_MAIN) ++nops;
+  long npre = 0;
+  for (auto& p : pre) npre += (long)p.size();
+  const long budget = 4 * nops + 6L * vs_guards_count() + npre + 64 + 2L * nthreads;
+  vs_sim_begin(plan.seed, nthreads, (int)plan.cfg_int("policy", 0), (int)plan.cfg_int("pct_depth", 1), 3 * nops + 16, budget);
+  vs_set_guard_points((int)plan.cfg_int("guard_points", 1));
+  for (int t = 0; t < nthreads; ++t) {
+    if (!pre[t].empty()) vs_set_preempts(t, pre[t].data(), (int)pre[t].size());
+    long late = plan.cfg_int(("late_" + std::to_string(t)).c_str(), 0);
+    if (late > 0) vs_set_initial_stall(t, (int)late);
+  }
+  if (plan.has_schedule) vs_sim_replay(plan.schedule.data(), (int)plan.schedule.size());
+  g_sh.plan = &plan; g_sh.ctx = &ctx; g_sh.results = &results;
+  std::vector<pthread_t> th((size_t)nthreads);
+  std::vector<ThreadArg> targ((size_t)nthreads);
+  for (int t = 0; t < nthreads; ++t) {
+    targ[t].tid = t;
+    if (pthread_create(&th[t], nullptr, worker, &targ[t]) != 0) { res.status = "harness_error"; res.detail = "pthread_create"; return; }
+  }
+  const int rc = vs_run();
+
+  char hb[32];
+  snprintf(hb, sizeof hb, "%016llx", (unsigned long long)vs_event_hash()); res.str["evhash"] = hb;
+  snprintf(hb, sizeof hb, "%016llx", (unsigned long long)vs_first_use_hash()); res.str["fuhash"] = hb;
+  res.num["steps"] = (double)vs_steps();
+  res.num["switches"] = (double)vs_switches();
+  res.num["threads"] = nthreads;
+  res.num["ops"] = (double)nops;
+  res.num["f.guard_contention"] = (double)vs_guard_contentions();
+  res.num["f.preempt"] = (double)vs_preempts_fired();
+  res.num["f.stall"] = (double)vs_stalls_fired();
+  res.num["f.prewarm"] = nprewarm;
+  res.num["p.nested_guard_depth2"] = vs_guard_max_nest() >= 2 ? 1 : 0;
+  res.num["p.nested_guard_depth3"] = vs_guard_max_nest() >= 3 ? 1 : 0;
+  res.num["max_guard_nest"] = vs_guard_max_nest();
+  res.num["statics_initialised"] = vs_statics_initialised();
+  res.num["tsan_reports"] = vs_tsan_reports();
+  {
+    std::string gs;
+    for (size_t i = 0; i < plan.groups.size(); ++i) gs += (i ? "+" : "") + plan.groups[i];
+    res.str["groups"] = gs;
+  }
+
+  auto dump_events = [&]() {
+    if (o.events_path.empty()) return;
+    FILE* f = fopen(o.events_path.c_str(), "w");
+    if (!f) return;
+    vs_dump_events(f); vs_dump_first_use(f); vs_dump_statics(f);
+    fclose(f);
+  };
+  auto record = [&]() {
+    if (!o.record) return;
+    Plan p = plan;
+    p.has_schedule = true; p.schedule.clear();
+    for (long i = 0; i < vs_schedule_len(); ++i) p.schedule.push_back(vs_schedule_at(i));
+    p.preempts = pre;
+    *o.record = p;
+  };
+
+  if (rc != 0) {
+    // threads are parked for good: report and leave without joining
+    res.fail(rc == 1 ? "deadlock" : "progress", rc == 1 ? "deadlock" : "progress",
+             rc == 1 ? "all remaining simulated threads are blocked on guards owned by blocked threads"
+                     : "run did not finish within " + std::to_string(budget) + " scheduler decisions", vs_steps());
+    dump_events(); record();
+    res.str["flavour"] = flavour_name();
+    res.str["seed"] = std::to_string(plan.seed);
+    if (o.record && !o.emit_path.empty()) {   // main() cannot write the plan after _exit
+      o.record->check = "C14"; o.record->seed = plan.seed; o.record->set("thorough", o.thorough ? 1 : 0);
+      FILE* f = fopen(o.emit_path.c_str(), "w");
+      if (f) { plan_write(*o.record, f); fclose(f); }
+    }
+    res.print(stdout);
+    fflush(stdout);
+    _exit(1);
+  }
+  for (int t = 0; t < nthreads; ++t) pthread_join(th[t], nullptr);
+  dump_events(); record();
+
+  // ---- oracles --------------------------------------------------------------------------------------------------
+  for (size_t i = 0; i < n && !res.failed(); ++i) {
+    const Step& s = plan.steps[i];
+    if (s.kind != ST_OP) continue;
+    const OpInfo& inf = op_info(s.op.op);
+    const GroupVT* vt = ctx.g[s.group].vt;
+    res.add((std::string("op.") + inf.name).c_str(), 1);
+    if (s.op.fault == F_REJECT) {
+      res.add("f.rejected_call", 1);
+      if (results[i].status != 9 && results[i].status != (int)s.op.fparam) {
+        std::ostringstream m;
+        m << "thread " << (int)s.op.thread << ": call that must be refused (" << inf.name << " in " << vt->name << ") returned "
+          << status_name(results[i].status);
+        res.fail("rejected_call", std::string("rejected_call/") + vt->name + "/" + inf.name, m.str(), (long)i);
+      }
+    }
+    if (results[i].status != ref.res[i].status || results[i].digest != ref.res[i].digest || results[i].flags != ref.res[i].flags) {
+      std::ostringstream m;
+      m << "thread " << (int)s.op.thread << " step " << i << ": " << inf.name << " on " << vt->name
+        << " returned a different result under concurrency than in the single-threaded reference process (status "
+        << status_name(results[i].status) << " vs " << status_name(ref.res[i].status) << ", digest " << std::hex
+        << results[i].digest << " vs " << ref.res[i].digest << ")";
+      res.fail("value_vs_sequential", std::string("value_vs_sequential/") + vt->name + "/" + inf.name, m.str(), (long)i);
+    }
+    if (results[i].flags & 1)
+      res.fail("output_block", std::string("output_block/") + vt->name + "/" + inf.name,
+               std::string(inf.name) + " wrote outside the block bound to an optional output", (long)i);
+  }
+  // ---- diagnostics: informative, never a violation by themselves -----------------------------------------------
+  // A function-local static that changes after its initialisation (or a guard taken twice) is what a
+  // hand-rolled lazy initialiser or a static scratch buffer looks like, but it is also what a correctly
+  // locked cache or a std::once_flag looks like; the deciding oracles are the race detector and the
+  // comparison with the sequential reference.  These observations are attached to the run for the reader.
+  {
+    long mstep = -1;
+    int ms = vs_first_mutation(&mstep);
+    if (ms < 0) ms = vs_statics_check();
+    if (ms >= 0) { res.add("d.static_mutated", 1); res.str["d.static_mutated_name"] = vs_static_name(ms); }
+    char buf[512];
+    if (vs_guard_violation(buf, sizeof buf) >= 0) { res.add("d.guard_anomaly", 1); res.str["d.guard_anomaly_what"] = buf; }
+    for (int k = 0; k < nstat; ++k) {
+      uint64_t mine = vs_static_hash_at(k);
+      if (mine && ref.static_hash[k] && mine != ref.static_hash[k]) {
+        res.add("d.static_value_differs", 1); res.str["d.static_value_name"] = vs_static_name(k);
+        break;
+      }
+    }
+  }
+  if (!res.failed()) {
+    uint64_t oh = operand_hash(ctx);
+    if (oh != ophash0 || ref.operand_hash_after != ophash0)
+      res.fail("operand_modified", "operand_modified", "a shared operand changed during a run of non-mutating operations", -1);
+  }
+  ctx.destroy();
+}
+
+}  // namespace vsim
